@@ -57,6 +57,8 @@ type LexOpts struct {
 	MaxRules   int
 	Macros     bool
 	NoNullable bool // guarantee that no rule matches the empty string
+	BothModeActions bool // some rules inside modes carry both @pop_mode and @push_mode (any order)
+	TwoModeActions  bool // some rules carry two mode actions in a meaningful order: pop then push ("replace the mode"), or two pushes
 	NullablePct int // otherwise: percent of rules left nullable when they come out nullable (default 10)
 }
 
@@ -267,8 +269,29 @@ func RandomLexer(r *rng.R, o LexOpts) (*lexspec.Spec, Alphabet) {
 						target = "" // re-enter the default mode
 					}
 					rule.Actions = insertAt(r, rule.Actions, lexspec.Action{Kind: lexspec.APush, Arg: target})
+				case o.TwoModeActions && r.Chance(1, 6):
+					// the written order of the two mode actions matters: they are
+					// placed in that order, anywhere among the other actions
+					first := lexspec.Action{Kind: lexspec.APush, Arg: modes[r.Intn(len(modes))]}
+					if inMode && r.Chance(2, 3) {
+						first = lexspec.Action{Kind: lexspec.APop}
+					}
+					second := lexspec.Action{Kind: lexspec.APush, Arg: modes[r.Intn(len(modes))]}
+					i := r.Intn(len(rule.Actions) + 1)
+					j := i + r.Intn(len(rule.Actions)-i+1)
+					var as []lexspec.Action
+					as = append(as, rule.Actions[:i]...)
+					as = append(as, first)
+					as = append(as, rule.Actions[i:j]...)
+					as = append(as, second)
+					as = append(as, rule.Actions[j:]...)
+					rule.Actions = as
 				case inMode && r.Chance(1, 3):
 					rule.Actions = insertAt(r, rule.Actions, lexspec.Action{Kind: lexspec.APop})
+					if o.BothModeActions && r.Chance(1, 3) {
+						target := modes[r.Intn(len(modes))]
+						rule.Actions = insertAt(r, rule.Actions, lexspec.Action{Kind: lexspec.APush, Arg: target})
+					}
 				}
 			}
 			rules = append(rules, rule)
